@@ -20,8 +20,11 @@ import (
 )
 
 // c09World builds a sender and a receiver that knows the sender's chain key, for one group of the given kind.
+// c09Backend selects the kind of datastore the SENDER's secret store sits on (see newVStoreBackend).
+var c09Backend = "batching"
+
 func c09World(ctx context.Context, kind string) (sender, recv *vStore, g *protocoltypes.Group, err error) {
-	sender = newVStore("S", 100, 4)
+	sender = newVStoreBackend("S", c09Backend, 100, 4)
 	switch kind {
 	case "account":
 		g, _, _ = sender.ss.GetGroupForAccount()
@@ -95,7 +98,7 @@ func TestVerifC09Faults(t *testing.T) {
 	defer rep.Finish(t)
 	rep.Rule = "per group type, a workload of 6 sequential SealEnvelope calls interleaved with GetShareableChainKey for a late member, PutGroup and the registration of the device's own announcement (and one of 3 goroutines x 3 calls) is first recorded fault-free to count the datastore accesses A of the sending store; then for EVERY k in 1..A the workload is repeated with the k-th access " +
 		"(get / has / put / delete / batch commit) failing once with an injected error. Oracle over the envelopes RELEASED to callers (err == nil): counters pairwise distinct, each opens at the receiver to its own payload, the stored chain counter never decreases, " +
-		"nothing panics, and two further fault-free sends afterwards succeed with fresh counters. distinct = (group type, workload, k)"
+		"nothing panics, and two further fault-free sends afterwards succeed with fresh counters; the fault-free workload is also run on sender backends without batching (Batch() unsupported / no batching feature). distinct = (group type, workload, k)"
 	rep.Assume("a failed send is allowed (the error is handed to the caller); gap-freeness is judged only in the fault-free units, since a failed send may legitimately burn a counter")
 	ctx := context.Background()
 	injected := errors.New("verif: injected datastore error")
@@ -178,6 +181,30 @@ func TestVerifC09Faults(t *testing.T) {
 				}
 				sender.ds.OnMutation = nil
 				return accesses, sent, recv, g, errs, true
+			}
+			// the same workload, fault-free, on backends that offer no batching (the store then writes key by key): counters
+			// must be the gap-free sequence all the same
+			for _, backend := range []string{"batch-unsupported", "no-batching-feature"} {
+				c09Backend = backend
+				_, sentB, recvB, gB, errsB, okB := run(0)
+				c09Backend = "batching"
+				if !okB {
+					return
+				}
+				tagB := fmt.Sprintf("%s concurrent=%v backend=%s", kind, concurrent, backend)
+				rep.Case(tagB)
+				rep.Eval(len(sentB))
+				if errsB > 0 {
+					rep.Violate("C09/seal-error/backend="+backend, fmt.Sprintf("%d sends failed on a backend without batching", errsB), tagB)
+				} else if c09JudgeReleased(ctx, rep, tagB, recvB, gB, sentB) {
+					for i, sb := range sentB { // sorted by counter
+						if sb.counter != sentB[0].counter+uint64(i) {
+							rep.Violate("C09/counter-gap/backend="+backend, fmt.Sprintf("counters on a backend without batching are not gap-free: position %d has %d", i, sb.counter), tagB)
+							break
+						}
+					}
+					rep.Count("workloads_on_backends_without_batching", 1)
+				}
 			}
 			total, sent, recv, g, errs, ok := run(0)
 			if !ok {
@@ -342,14 +369,15 @@ func TestVerifC09Stall(t *testing.T) {
 				reached, stall, landed := make(chan struct{}), make(chan struct{}), make(chan struct{})
 				var landedOnce sync.Once
 				sender.ds.Perturb = func(op, key string) {
-					if !strings.HasPrefix(key, prefix) {
+					// the chain key written on its own, or as part of a batch (the hook of a commit gets every key of the batch)
+					if !strings.HasPrefix(key, prefix) && !strings.Contains(key, "\n"+prefix) {
 						return
 					}
-					if op == "put" && armed.CompareAndSwap(true, false) {
+					if (op == "put" || op == "commit") && armed.CompareAndSwap(true, false) {
 						close(reached)
 						<-stall
 					}
-					if op == "put-done" && released.Load() {
+					if (op == "put-done" || op == "commit-done") && released.Load() {
 						landedOnce.Do(func() { close(landed) })
 					}
 				}
@@ -436,5 +464,191 @@ func TestVerifC09Stall(t *testing.T) {
 	rep.Sample(map[string]interface{}{"positions": npos, "group_types": groupKinds})
 	if rep.Counter("calls_returned_with_write_pending")+rep.Counter("calls_that_waited_for_their_write") == 0 && rep.ViolationCount() == 0 {
 		rep.Inconclusivef("no stalled write was observed")
+	}
+}
+
+// TestVerifC09FirstUse: several application tasks use a group for the first time at once (share the chain key, then send):
+// the device's chain must be created once, every task must hand out and use that one chain.
+func TestVerifC09FirstUse(t *testing.T) {
+	rep := verifkit.NewReport("C09", "c09-first-use")
+	defer rep.Finish(t)
+	rep.Rule = "per group type, R rounds on a group the device has no chain key for yet: 2-6 goroutines released together each call GetShareableChainKey (or PutGroup) and then seal two messages; a rendezvous in the datastore wrapper holds the first task that has looked up the (missing) own chain key until a second one has looked it up too (or 30 ms passed); " +
+		"oracle: counters of all envelopes pairwise distinct and exactly 1..n, stored counter monotone at every write (checked under the datastore's lock), all announcements handed out lie on one chain (later ones derive from the earliest), and a receiver that registers the earliest opens every envelope sealed after it. Runs under the race detector. distinct = (group type, round)"
+	ctx := context.Background()
+	rounds := verifkit.Pick(60, 600)
+	prefix := "/" + dsNamespaceChainKeyForDeviceOnGroup + "/"
+	for _, kind := range groupKinds {
+		for r := 0; r < rounds && rep.ViolationCount() < 5; r++ {
+			rng := verifkit.Rand(fmt.Sprintf("c09-first-%s-%d", kind, r))
+			sender := newVStore("S", 100, 4)
+			var recv *vStore
+			var g *protocoltypes.Group
+			switch kind {
+			case "account":
+				g, _, _ = sender.ss.GetGroupForAccount()
+				recv = sender.newSiblingDevice("R")
+			case "contact":
+				recv = newVStore("R", 100, 4)
+				g, _ = sender.ss.GetGroupForContact(recv.accountPK())
+			default:
+				g, _, _ = protocoltypes.NewGroupMultiMember()
+				recv = newVStore("R", 100, 4)
+			}
+			tag := fmt.Sprintf("%s round=%d", kind, r)
+			sender.ds.OnMutation = c09MonotoneHook(rep, tag)
+			var readers atomic.Int32
+			sender.ds.Perturb = func(op, key string) {
+				if op == "get-done" && strings.HasPrefix(key, prefix) {
+					if readers.Add(1) >= 2 {
+						return
+					}
+					deadline := time.After(30 * time.Millisecond)
+					for readers.Load() < 2 {
+						select {
+						case <-deadline:
+							return
+						case <-time.After(200 * time.Microsecond):
+						}
+					}
+				}
+			}
+			n := 2 + rng.Intn(5)
+			usePutGroup := make([]bool, n)
+			for i := range usePutGroup {
+				usePutGroup[i] = rng.Intn(4) == 0
+			}
+			var mu sync.Mutex
+			var sent []c09Sent
+			var anns [][]byte
+			errs := 0
+			var wg sync.WaitGroup
+			gate := make(chan struct{})
+			for c := 0; c < n; c++ {
+				wg.Add(1)
+				go func(c int) {
+					defer wg.Done()
+					<-gate
+					if usePutGroup[c] {
+						if err := sender.ss.PutGroup(ctx, g); err != nil {
+							mu.Lock()
+							errs++
+							mu.Unlock()
+							return
+						}
+					}
+					ann, err := sender.ss.GetShareableChainKey(ctx, g, recv.memberPK(g))
+					mu.Lock()
+					if err != nil {
+						errs++
+					} else {
+						anns = append(anns, ann)
+					}
+					mu.Unlock()
+					for i := 0; i < 2; i++ {
+						p := []byte(fmt.Sprintf("%s-c%d-i%d", tag, c, i))
+						data, err := sender.ss.SealEnvelope(ctx, g, wrapPayload(p))
+						mu.Lock()
+						if err != nil {
+							errs++
+						} else {
+							_, h := openHeadersAsMember(g, data)
+							sent = append(sent, c09Sent{p, data, h.Counter, c})
+						}
+						mu.Unlock()
+					}
+				}(c)
+			}
+			close(gate)
+			done := make(chan struct{})
+			go func() { wg.Wait(); close(done) }()
+			select {
+			case <-done:
+			case <-time.After(60 * time.Second):
+				rep.Inconclusivef("%s: first uses did not return (watchdog)", tag)
+				return
+			}
+			sender.ds.Perturb, sender.ds.OnMutation = nil, nil
+			rep.Case(tag)
+			rep.Eval(len(sent))
+			if errs > 0 {
+				rep.Violate("C09/first-use-error", fmt.Sprintf("%d calls failed while %d tasks used the group for the first time", errs, n), tag)
+				continue
+			}
+			// every task forwards the announcement it was handed; they were taken at different moments (an announcement shares
+			// the chain as it is at that moment), but all of them must lie on ONE chain: the later ones are derived from the
+			// earliest one
+			type annState struct {
+				raw []byte
+				ck  *protocoltypes.DeviceChainKey
+			}
+			var states []annState
+			bad := false
+			for _, a := range anns {
+				ck, err := decryptDeviceChainKey(a, g, recv.md(g).member, sender.devicePK(g))
+				if err != nil {
+					rep.Violate("C09/first-use-announcement-unusable", err.Error(), tag)
+					bad = true
+					break
+				}
+				states = append(states, annState{a, ck})
+			}
+			if bad {
+				continue
+			}
+			sort.Slice(states, func(i, j int) bool { return states[i].ck.Counter < states[j].ck.Counter })
+			base := states[0]
+			for _, st := range states[1:] {
+				val := base.ck.ChainKey
+				for k := base.ck.Counter; k < st.ck.Counter; k++ {
+					next, _, err := deriveNextKeys(val, nil, g.GetPublicKey())
+					if err != nil {
+						panic(err)
+					}
+					val = next
+				}
+				rep.Eval(1)
+				if !sameBytes(val, st.ck.ChainKey) {
+					rep.Violate("C09/first-use-two-chains", fmt.Sprintf("tasks using the group for the first time at once were handed chain keys of different chains (counters %d and %d)", base.ck.Counter, st.ck.Counter), tag)
+					bad = true
+					break
+				}
+			}
+			if bad {
+				continue
+			}
+			if err := recv.ss.RegisterChainKey(ctx, g, sender.devicePK(g), base.raw); err != nil {
+				rep.Violate("C09/first-use-announcement-unusable", err.Error(), tag)
+				continue
+			}
+			// distinctness over everything; opening is demanded for what was sealed after the earliest announcement
+			var later []c09Sent
+			for _, s := range sent {
+				if s.counter > base.ck.Counter {
+					later = append(later, s)
+				}
+			}
+			sort.Slice(sent, func(i, j int) bool { return sent[i].counter < sent[j].counter })
+			dup := false
+			for i := 1; i < len(sent); i++ {
+				if sent[i].counter == sent[i-1].counter {
+					rep.Violate("C09/counter-reused", fmt.Sprintf("two released envelopes carry counter %d (two different payloads under one message key and nonce)", sent[i].counter), tag)
+					dup = true
+				}
+			}
+			if dup || !c09JudgeReleased(ctx, rep, tag, recv, g, later) {
+				continue
+			}
+			for i, s := range sent { // sorted by counter
+				if s.counter != uint64(i)+1 {
+					rep.Violate("C09/counter-gap/first-use", fmt.Sprintf("after concurrent first uses the counters are not 1..n: position %d has %d", i, s.counter), tag)
+					break
+				}
+			}
+			rep.Count("first_use_rounds_consistent", 1)
+		}
+	}
+	rep.Sample(map[string]interface{}{"rounds_per_group_type": rounds, "tasks": "2-6", "sends_per_task": 2})
+	if rep.Counter("first_use_rounds_consistent") == 0 && rep.ViolationCount() == 0 {
+		rep.Inconclusivef("no round completed")
 	}
 }
